@@ -11,10 +11,15 @@ def dump_tables():
         raise Broken("gvgen dump failed: the observation tables cannot be regenerated from /repo", o[-3000:])
 
 
+BLE_BROKEN = None   # set when /repo/bleparser can no longer be translated (the stale Gen/BleImpl.v is kept)
+
+
 def regenerate_all():
+    global BLE_BROKEN
     dump_tables()
+    from lib import blegen
+    BLE_BROKEN = None
     try:
-        from lib import blegen
         blegen.translate()
-    except ImportError:
-        pass
+    except Broken as b:
+        BLE_BROKEN = b
